@@ -16,6 +16,7 @@ def run(vc, tier):
     c.run_vx_unit('c14-cparams', SRC, 'plain', ['--mode', 'cparams', '--D', 1 if q else 2, '--exec-timeout', 120000], share=0.4)
     c.run_vx_unit('c14-dstream', SRC, 'plain', ['--mode', 'dstream', '--D', 0], share=0.5)
     c.run_vx_unit('c14-sizeof', SRC, 'plain', ['--mode', 'sizeof', '--D', 0, '--exec-timeout', 60000], share=0.6)
+    c.run_vx_unit('c14-wear', SRC, 'plain', ['--mode', 'wear', '--D', 0, '--exec-timeout', 120000], share=0.5)
     c.run_vx_unit('c14-dicts', SRC, 'plain', ['--mode', 'dicts', '--cat', vc.catalogue('quick'), '--D', 0], share=0.9)
     c.assumptions = ['windowLog > 24 not run in the cParams grid (blocks capped at 300 MiB)', 'guard pages catch any access outside the caller block; reads inside slack (< 8 bytes of alignment) are not caught',
                      'built without sanitizers (gcc -O1): the oracle is the MMU']
